@@ -294,15 +294,16 @@ def pagesAfter (p : Pages) (bs : Bytes) : Option Pages :=
 
 /-- `wbxml_fill_header` with the string table disabled (flow mode): version, public id (numeric, or
     `00 00` + the textual id as the only string-table entry when the numeric id is 0x01 or textual
-    ids are forced, unless anonymous), charset UTF-8, string-table length, string table. -/
+    ids are forced, unless anonymous; an anonymous document says 0x01), charset UTF-8 (not in a
+    WBXML 1.0 header), string-table length, string table. -/
 def wbxmlHeader (lang : Lang) (version : Nat) (textual anonymous : Bool) : Bytes :=
   let pid : Option Bytes :=
     if (textual || lang.pub.wbxmlId == 1) && !anonymous then lang.pub.xmlId else none
   [UInt8.ofNat version] ++
   (match pid with
    | some _ => [0x00] ++ Codec.mbEncode 0
-   | none => Codec.mbEncode lang.pub.wbxmlId) ++
-  Codec.mbEncode 106 ++
+   | none => Codec.mbEncode (if anonymous then 1 else lang.pub.wbxmlId)) ++   -- anonymous: "unknown"
+  (if version == 0 then [] else Codec.mbEncode 106) ++                         -- no charset field in WBXML 1.0
   (match pid with
    | some s => Codec.mbEncode (s.length + 1) ++ s ++ [0x00]
    | none => Codec.mbEncode 0)
@@ -349,7 +350,7 @@ def xmlNodeNoEnd (c : XCfg) (n : Node) (st : XSt) : Except Err XSt :=
     let st := xmlTag c .none name st
     let st := if c.lang.attrs.isSome then attrs.foldl (fun st a => xmlAttr c a st) st else st
     let st := xmlEndAttrs c kids st
-    let st ← xmlNodes c (.elt name) (needList kids) kids st
+    let st ← xmlNodes c (childScope .none name) (needList kids) kids st
     pure { st with curTag := none }
   | _ => xmlNode c .none (needNode n) n st
 
